@@ -13,7 +13,7 @@ func init() {
 	register(&PropDef{
 		ID:    "C11",
 		Pkgs:  []string{tr},
-		Claim: "Decides the structural part: a client stream is ended once (status store, done-channel close and quota give-back sit behind the first swap of the state to done; every close of the header channel behind a winning compare-and-swap); the reader loop returns only on a preface or transport read error, ignores unknown frame types, and its frame handlers contain no explicit panic, unchecked type assertion or unguarded integer division; the HTTP/2 error-code table covers every defined code and an unmapped RST_STREAM code always becomes UNKNOWN (the looked-up value is used only when the lookup succeeded), never OK; GOAWAY with an even non-zero id or an id above the previous one is a connection error; Close waits for the reader (and the keepalive goroutine) before finishing the remaining streams.",
+		Claim: "Decides the structural part: a client stream is ended once (status store, done-channel close and quota give-back sit behind the first swap of the state to done; every close of the header channel behind a winning compare-and-swap); the reader loop returns only on a preface or transport read error, ignores unknown frame types, and its frame handlers contain no explicit panic, unchecked type assertion or unguarded integer division; the HTTP/2 error-code table covers every defined code and an unmapped RST_STREAM code always becomes UNKNOWN (the looked-up value is used only when the lookup succeeded), never OK; GOAWAY with an even non-zero id or an id above the previous one is a connection error; Close waits for the reader (and the keepalive goroutine) before finishing the remaining streams. Frame decoders are bounds-safe; looked-up streams are dereferenced only where the lookup succeeded; RST_STREAM codes map to their statuses on the stated arms.",
 		NotDecided:  []string{"termination no later than the deadline for every frame sequence (liveness/timing)", "goroutine and buffer leak freedom", "panics inside golang.org/x/net/http2 or hpack"},
 		Assumptions: []string{"golang.org/x/net/http2 framer returns well-formed frame structs"},
 		Technique:   "static analysis: once-only guards on go/ssa branch facts, panic-source enumeration (explicit panic / unchecked assertion / division), exhaustive table check against the constants of the imported package, phi-leaf value analysis, refusing-arm unreachability",
